@@ -34,6 +34,10 @@
   immaterial because of `sorted`.  `sorted` on `Path` objects compares the lists of path components
   (`PurePath._parts_normcase`), component strings by code point.
 
+  (Since round 3 the lexical half of the ASSUMPTION above is a theorem: Spec/GqlLexer.lean + Properties/C19.lean §1b
+  `joined_text_tokens`; what stays assumed is the token-level statement `DefinitionWise` there.  `nested_file_walked`
+  in Properties/C19.lean spells out "hidden ones too" for any depth and any names.)
+
   Core Lean only (linked into the driver).
 -/
 import AriadneModel.Generated.Tables
